@@ -323,6 +323,24 @@ def system_trace(events, res, args, has_diff):
     return out
 
 
+def validate_detect(traces, chunk=100):
+    """TraceDetect over many recorded detector loops: concatenated (every run starts with its detect_start event),
+    one TLC process per chunk; the members of a rejected chunk are validated again one by one."""
+    ids = sorted(traces, key=str)
+    res, groups = {}, {}
+    for k in range(0, len(ids), chunk):
+        groups["dchunk-%d" % k] = ids[k:k + chunk]
+    cat = {g: [e for i in members for e in traces[i]] for g, members in groups.items()}
+    for g, (ok, diag, states, rc_) in validate_many("TraceDetect", cat, timeout=600).items():
+        members = groups[g]
+        if ok:
+            for i in members:
+                res[i] = (True, None, max(1, states // max(1, len(members))), rc_)
+        else:
+            res.update(validate_many("TraceDetect", {i: traces[i] for i in members}))
+    return res
+
+
 def validate_system(traces, chunk=150):
     """TraceSystem over many complete runs: the runs of a chunk are concatenated (each starts with its `begin` event)
     and validated by one TLC process; the members of a rejected chunk are validated again one by one so that the
